@@ -383,7 +383,29 @@ pub fn check_strict(m: &Model, t: &Trace, check_positions: bool) -> Result<Stric
                         si,
                         s.op
                     );
+                    if m.term == Terminal::Unspecified && c + k > n.min(c + want_n.unwrap_or(usize::MAX).min(n - c)) {
+                        // the batch runs into the out-of-domain group: only the prefix is claimed
+                        for (j, r) in content.iter().take(n - c).enumerate() {
+                            ensure!(
+                                *r == m.recs[c + j].rec,
+                                format!("{}/set/wrong-record", fmt),
+                                "step {} ({:?}): set record {} is {:?}, expected record {} = {:?}",
+                                si,
+                                s.op,
+                                j,
+                                r,
+                                c + j,
+                                m.recs[c + j].rec
+                            );
+                        }
+                        st.reached_unspecified = true;
+                        return Ok(st);
+                    }
                     if let Some(w) = want_n {
+                        if m.term == Terminal::Unspecified && *w > n - c {
+                            st.reached_unspecified = true;
+                            return Ok(st);
+                        }
                         let exp_k = (*w).min(n - c);
                         ensure!(
                             k == exp_k,
@@ -714,6 +736,11 @@ pub fn check_genuine(fmt: &str, recs: &[NRec], seek_floor: &dyn Fn(u64) -> Optio
                     }
                     seen_end = false;
                 } else {
+                    // a failed seek may leave the reader at the old place or at the target:
+                    // the most permissive floor is the smaller one
+                    if let Some(f) = seek_floor(*byte) {
+                        floor = floor.min(f);
+                    }
                     seen_err = true;
                     st.errors += 1;
                 }
